@@ -71,8 +71,8 @@ CLAIMED["C04"] = dict(
     text="C04 (= C04_statement) is proved on the model for unbounded histories; the model reproduces the implementation's exact "
          "array state after every operation of random histories with relocations, clone/postcard round trips and rejected "
          "keys; the exact-set oracle and the structural invariant are also evaluated on the implementation.",
-    note="The theorem quantifies over histories that run without a model panic (`run … = some t`); absence of panics is observed "
-         "by the correspondence run, the rebase self-parent assertion is proved unreachable (Inv.not_self_parent). serde/Clone "
+    note="C04_no_panic / C04_only_bad_oracle: no reachable state panics on an insertion (expect, index, Base+Label, the assertions "
+         "of xcheck and rebase); a history fails to run in the model only at an xcheck answer the loop could not return. serde/Clone "
          "modelled as identity; find_labels_of order canonicalised (ascending labels); re-parenting of grandchildren written as a "
          "map over all slots. Axioms: propext, Classical.choice, Quot.sound.",
     design="5/C04")
